@@ -163,7 +163,11 @@ pub fn calc_depth(s: &str) -> u32 {
 
 #[cfg(not(windows))]
 pub fn calc_depth(s: &str) -> u32 {
-    s.matches("/").count() as u32
+    // `/` and `/usr` both contain one separator but are one level apart
+    match s {
+        "/" => 1,
+        _ => s.matches("/").count() as u32 + 1,
+    }
 }
 
 pub fn path_error_message(p: &Path, e: io::Error) {
